@@ -3,6 +3,7 @@ package harness
 import (
 	"context"
 	"fmt"
+	"sync/atomic"
 	"testing"
 	"time"
 
@@ -19,19 +20,22 @@ func genWCfg(r *Rng, kinds []string) WCfg {
 		c.Kind, c.Timeout = 1, r.Pick(0, 0, 1_000_000, 7_000_000)
 	case "deadline":
 		c.Kind, c.Deadline = 2, r.Pick(5_000_000, 20_000_000, 100_000_000)
+		if r.Bool(6) {
+			c.Deadline = ZeroDeadline // built with the zero time.Time: a deadline long past, every call is refused at once
+		}
 	case "with-defaults", "lifo-defaults":
 		c.Kind, c.MaxB, c.Timeout, c.Fifo = 3, 100, 1_000_000_000, false
 	case "fifo-defaults":
 		c.Kind, c.MaxB, c.Timeout, c.Fifo = 3, 100, 1_000_000_000, true
 	case "lifo":
-		c.Kind, c.MaxB, c.Timeout, c.Fifo = 3, r.Pick(1, 2, 3, 5), r.Pick(3_000_000, 10_000_000, 50_000_000), false
+		c.Kind, c.MaxB, c.Timeout, c.Fifo = 3, r.Pick(1, 2, 3, 5), r.Pick(3_000_000, 10_000_000, 50_000_000, 999_999, 700), false
 	case "fifo":
-		c.Kind, c.MaxB, c.Timeout, c.Fifo = 3, r.Pick(1, 2, 3, 5), r.Pick(3_000_000, 10_000_000, 50_000_000), true
+		c.Kind, c.MaxB, c.Timeout, c.Fifo = 3, r.Pick(1, 2, 3, 5), r.Pick(3_000_000, 10_000_000, 50_000_000, 999_999, 700), true
 	case "config-default-order":
-		c.Kind, c.MaxB, c.Timeout, c.Fifo, c.Evict = 3, r.Pick(1, 2, 3, 5), r.Pick(3_000_000, 10_000_000, 50_000_000), false, r.Bool(50)
+		c.Kind, c.MaxB, c.Timeout, c.Fifo, c.Evict = 3, r.Pick(1, 2, 3, 5), r.Pick(3_000_000, 10_000_000, 50_000_000, 999_999, 700), false, r.Bool(50)
 	case "config":
 		// a negative backlog timeout means "no backlog timer": the only ways out of the backlog are a grant or (with eviction) a cancellation
-		c.Kind, c.MaxB, c.Timeout, c.Fifo, c.Evict = 3, r.Pick(1, 2, 3, 5), r.Pick(-1, 3_000_000, 10_000_000, 50_000_000), r.Bool(50), r.Bool(50)
+		c.Kind, c.MaxB, c.Timeout, c.Fifo, c.Evict = 3, r.Pick(1, 2, 3, 5), r.Pick(-1, 3_000_000, 10_000_000, 50_000_000, 999_999, 700), r.Bool(50), r.Bool(50)
 	}
 	if (via == "config" || via == "config-default-order" || via == "lifo" || via == "fifo") && r.Bool(12) {
 		// a non-positive backlog size asks for the default bound (100) - and for nothing else: ordering, timeout and eviction stay as configured
@@ -291,6 +295,9 @@ func TestC12(t *testing.T) {
 				}
 			}
 		}
+		if st := atomic.LoadInt64(&w.Stale); st > 0 {
+			fail("backlog-not-exact:entry-outlives-return", fmt.Sprintf("when an Acquire returned the backlog held %d entries more than there were callers still inside Acquire", st))
+		}
 		// the bound in force is the configured one (the default 100 for a non-positive size)
 		if w.Queue != nil {
 			if mb, _ := w.Queue.VerifBacklogConfig(); int64(mb) != w.Cfg.MaxB {
@@ -354,6 +361,16 @@ func TestC13(t *testing.T) {
 				rep.Distinct("arrival-before-deadline", fmt.Sprint(w.Absdl-c.arrival < 1_000_000, before[0]))
 				if c.status == 2 && c.t < w.Absdl {
 					fail("refused-early", fmt.Sprintf("caller arriving %d ns before the deadline was refused at once (busy %d)", w.Absdl-c.arrival, before[0]))
+				}
+			}
+		}
+		if op.Op == 1 && w.Cfg.Kind == 2 {
+			// a call made after the deadline is refused at once and consumes nothing (a limiter built with the zero time included)
+			c := w.Callers[len(w.Callers)-1]
+			if c.arrival > w.Absdl {
+				rep.Distinct("arrival-after-deadline", fmt.Sprint(w.Cfg.Deadline == ZeroDeadline, before[0]))
+				if c.status != 2 || c.t != c.arrival || int64(w.busy()) != before[0] {
+					fail("not-refused-after-deadline", fmt.Sprintf("Acquire %d ns after the deadline: status %d at +%d ns, busy %d -> %d", c.arrival-w.Absdl, c.status, c.t-c.arrival, before[0], w.busy()))
 				}
 			}
 		}
